@@ -1,6 +1,6 @@
 """Which units decide which property (DESIGN.md sections 1, 5)."""
 
-VERUS_UNITS = ['U-FMT', 'U-REACH', 'U-COMPACTAS', 'U-SANITY', 'U-RESOLVE', 'U-CONTAINS', 'U-CALLS', 'U-DESCR', 'U-DERIVES', 'U-MIXED', 'U-BUILDERS', 'U-SUBST', 'U-VALIDATE', 'U-FLATTEN', 'U-PATHS', 'U-TYPEIR']
+VERUS_UNITS = ['U-FMT', 'U-REACH', 'U-COMPACTAS', 'U-SANITY', 'U-RESOLVE', 'U-CONTAINS', 'U-CALLS', 'U-DESCR', 'U-DERIVES', 'U-MIXED', 'U-BUILDERS', 'U-SUBST', 'U-VALIDATE', 'U-FLATTEN', 'U-PATHS', 'U-TYPEIR', 'U-TYEX']
 
 PROPS = {
     'C15': {
@@ -67,18 +67,21 @@ PROPS = {
     },
     'C12': {
         'level': 'proof',
-        'verus': [],
+        'verus': ['U-TYEX'],
         'kani': ['primex_bool', 'primex_u8', 'primex_u16', 'primex_u32', 'primex_u64', 'primex_u128', 'primex_i8', 'primex_i16',
                  'primex_i32', 'primex_i64', 'primex_i128', 'primex_u256', 'primex_i256', 'primex_char_bounded', 'primex_str_bounded'],
         'trusted_base': ['Kani 0.68.0, CBMC 6.11.0 / CaDiCaL, rustc (Kani toolchain)',
-                         'rand 0.8.5 Standard / Uniform distributions are verified as compiled (not stubbed)'],
+                         'rand 0.8.5 Standard / Uniform distributions are verified as compiled (not stubbed)',
+                         'Verus 0.2026.09.13, Z3, rustc 1.98.1 (U-TYEX)'],
         'assumptions': [
             'scale-value encodes Primitive::U128(v) against uN iff v < 2^N, Primitive::I128(v) against iN iff -2^(N-1) <= v < 2^(N-1), Bool/Char/String/U256/I256 against their own kind (read from scale-value 0.18 encode impl; not verified here)',
             'mem::forget of the returned Value (its recursive drop glue is not executed symbolically)',
+            'U-TYEX (ty_example, fields_type_example): partial correctness relative to the ASSUMED contract of Transformer::resolve (an Ok result is valid for the id asked for -- the induction hypothesis), with valid_def my one-level transcription of scale-encode\'s acceptance rules and, for a compact type, C12\'s own restriction (compact wraps unsigned integers or single-field wrappers of them); assumed std / scale-value contracts listed in vx/prelude/tyex_shim.rs',
         ],
         'not_covered': [
-            'composite / variant / sequence / array / tuple / compact / bit-sequence example construction and the recursion-to-error marker (Transformer::resolve: RefCell<HashMap> + function pointers)',
-            'seed determinism, encode/decode round trip, "a value is returned whenever no cycle and no empty enum"',
+            'the recursion-to-error marker and termination (Transformer::resolve: RefCell<HashMap> + function pointers; outside both verifiers)',
+            'in ty_example: the draw of a variant, the Array arm\'s map/collect and the BitSequence arm are opaque calls (R8\'\' / R8\'\'\'); what is proved there is that their results are wrapped correctly',
+            'seed determinism, the decode half of the round trip, "a value is returned whenever no cycle and no empty enum" (the concrete oracle c12-structure tests them on a catalogue registry; a test, not a proof)',
         ],
     },
     'C11': {
